@@ -164,7 +164,38 @@ func ruleR15a(h *H) {
 				return
 			}
 			f := ci.Common().StaticCallee()
-			if f == nil || !isIn(targets, f) {
+			if f == nil {
+				return
+			}
+			if !isIn(targets, f) {
+				// an extracted helper (only called here) that makes the call on every successful path
+				if ir.SingleCallSite(f) == ci && f.Blocks != nil {
+					var inner ssa.CallInstruction
+					ir.Instrs(f, func(x ssa.Instruction) {
+						if c2, ok := x.(ssa.CallInstruction); ok && inner == nil {
+							if g := c2.Common().StaticCallee(); g != nil && isIn(targets, g) {
+								for _, a := range c2.Common().Args {
+									if argOK(a) {
+										inner = c2
+									}
+								}
+							}
+						}
+					})
+					if inner != nil {
+						skips := false
+						ir.Instrs(f, func(x ssa.Instruction) {
+							if ret, isRet := x.(*ssa.Return); isRet && mayReturnNilError(ret) && ir.Canon(ir.ReturnValues(ret)[len(ret.Results)-1]) != inner.(ssa.Value) {
+								if r, _ := ir.Reach(ir.Search{Fn: f, Barrier: ir.Is(inner)}, ir.Is(x)); r {
+									skips = true
+								}
+							}
+						})
+						if !skips {
+							out = ci
+						}
+					}
+				}
 				return
 			}
 			for _, a := range ci.Common().Args {
